@@ -987,7 +987,12 @@ class BaseImage(metaclass=ImageMeta):
 
         if not method:
             if cls._render_methods:
-                cls._render_method = cls._default_render_method
+                if "_default_render_method" in vars(cls):
+                    # The class that implements the render methods: back to its default
+                    cls._render_method = cls._default_render_method
+                elif "_render_method" in vars(cls):
+                    # A subclass: back to using that of its parent style class
+                    del cls._render_method
         else:
             cls._render_method = method
 
